@@ -196,6 +196,49 @@ CLAIMED = {
 }
 NOT_YET = {}
 
+PROG = (" Whole programs: seeded programs over all implemented forms (memory operands with address set-up, stack traffic, forward branches, "
+        "counted loops) are run by step(), by execute() and by execute() under an instruction limit; TLC validates every step against the "
+        "COMPOSED machine (Trace_Prog.tla = X86.tla + Exec.tla with the state carried from step to step) and this check takes the verdict "
+        "components it owns.")
+EXTRA_TEXT = {
+    "C01": " Exhaustive at 8 bits: TLC prints the result tables of X86.tla for every operand pair x carry-in (all counts for shifts; MUL/IMUL) "
+           "and every 8-bit form and operand shape of ax is run for ALL values against them." + PROG,
+    "C02": " Exhaustive at 8 bits: the same TLC-printed tables carry every flag's value/status and are compared for all 8-bit operands." + PROG,
+    "C03": PROG,
+    "C04": " RSP is also placed at and across both edges of the stack area and in read-only / unmapped memory: a refused stack access must leave "
+           "RSP, registers and memory unchanged." + PROG,
+    "C05": " PUSH/POP/CALL r/m operands addressed through RSP are judged here as well.",
+    "C06": " Guest accesses after shrink / regrow / re-protect histories are judged through Memory.tla (the mapping a fault depends on is a "
+           "product of the machine's history)." + PROG,
+    "C08": " Histories include mem_resize_section: accesses inside / across / beyond the new end of a shrunk area on every path, and the "
+           "regrown tail must read zero.",
+    "C09": " Also: execute permission revoked and re-granted between fetches from the same area, and accesses straddling two abutting areas "
+           "with different masks (PUSH/CALL slots under either stack convention must lie in ONE writable area).",
+    "C10": " For unbounded addresses and lengths, Apalache discharges NoOverlap as an INDUCTIVE invariant of the same allocation rules "
+           "(AllocInd.tla: Init => IndInv, IndInv /\\ Next => IndInv'; a resize rule without the collision test is refuted).",
+    "C11": " The stack-empty test of a top-level RET is about the stack pointer (Exec.tla's depth = stack height, POP in the model alphabet, "
+           "projection of the logged RSP in trace validation); execute() on a machine whose next step is refused must be refused too." + PROG,
+    "C12": " Hooked instructions that FAIL are followed by further instructions of the mnemonic, or by a repair and a second execution: the "
+           "hooks must still run.",
+    "C15": " Symbols are generated with all kinds NOTYPE/OBJECT/FUNC/GNU_IFUNC x LOCAL/GLOBAL/WEAK, section-relative and absolute.",
+    "C16": " A third base file carries PT_TLS / PT_GNU_RELRO / PT_GNU_STACK headers so that their fields are mutated too (header index up to 4).",
+    "C18": PROG,
+    "C19": " Register states include tiny (0..16) and huge (2^64-16..) values for indirect branch targets and addresses.",
+    "C20": " Partially written registers: seeded programs run on two machines with only a subset of the registers written (a random 10-80 %, "
+           "or exactly the registers the program reads); per step the log carries the instruction's data-flow summary from iced's "
+           "InstructionInfo and where the machines differ; Trace_Taint.tla carries the taint set (TwoRun!TaintG, whose noninterference "
+           "MC_Taint model-checks on a machine with partial writes, conditional moves, memory and refused instructions) and demands agreement "
+           "of outcome, error text, RIP, count, log and of every untainted register, flag and memory.",
+}
+EXTRA_TECH = {
+    "C01": "; exhaustive 8-bit tables printed by TLC replayed on ax; whole-program validation against the composed machine",
+    "C02": "; exhaustive 8-bit flag tables; whole-program validation",
+    "C03": "; whole-program validation", "C04": "; whole-program validation", "C06": "; Memory.tla validation of fault histories; whole-program validation",
+    "C10": "; Apalache inductive invariant (unbounded addresses)",
+    "C11": "; whole-program validation (step / execute / limit) against the composed machine", "C18": "; whole-program validation",
+    "C20": "; taint-carrying trace validation of partially written two-run programs (noninterference model-checked)",
+}
+
 
 def main():
     props = [json.loads(l) for l in open(os.path.join(VERIF, "properties.jsonl"))]
@@ -212,9 +255,9 @@ def main():
                 "evidence_file": f"/verif/evidence/{pid}.json",
                 "replay_cmd_template": f"bin/check {pid} --replay {{path}}",
                 "engine": "tla-mbt",
-                "level_claimed": {"category": c["category"], "text": c["text"], "design_ref": c["design_ref"]},
+                "level_claimed": {"category": c["category"], "text": c["text"] + EXTRA_TEXT.get(pid, ""), "design_ref": c["design_ref"]},
                 "level_note": c["note"],
-                "technique": c["technique"],
+                "technique": c["technique"] + EXTRA_TECH.get(pid, ""),
             })
         else:
             na.append({"property_id": pid, "reason": NOT_YET.get(pid, "check not built yet in this round (work in progress; see DESIGN.md §3 for the planned TLA+ model and binding)")})
